@@ -73,7 +73,7 @@ def from_py(v):
     if isinstance(v, range):
         return ('range', C(v.start), C(v.stop), C(v.step))
     if isinstance(v, dict):
-        return ('dict', tuple((from_py(k), from_py(x)) for k, x in v.items()))
+        return ('dict', tuple(sorted(((from_py(k), from_py(x)) for k, x in v.items()), key=lambda kv: skey(kv[0]))))
     if isinstance(v, (set, frozenset)):
         return ('set', tuple(sorted((from_py(x) for x in v), key=skey)))
     if isinstance(v, bytearray):
@@ -633,6 +633,8 @@ class PE:
             if k is None:
                 raise Unsupported('dict unpacking', n)
             items.append((self.ev(k, env), self.ev(v, env)))
+        if all(concrete(k) for k, v in items):
+            items.sort(key=lambda kv: skey(kv[0]))
         return ('dict', tuple(items))
 
     def ev_BinOp(self, n, env):
@@ -1322,10 +1324,21 @@ class PE:
                 phi = ('phi', L, rank)
                 nx = nexts[rank]
                 k = None
-                if nx[0] == '+' and len(nx[1]) == 2 and phi in nx[1]:
-                    o = nx[1][0] if nx[1][1] == phi else nx[1][1]
-                    if is_int(o):
-                        k = o[1]
+                if nx[0] == '+' and phi in nx[1] and list(nx[1]).count(phi) == 1:
+                    rest = [x for x in nx[1] if x != phi]
+                    inv = True
+                    for r_ in rest:
+                        for sub in walk(r_):
+                            if sub[0] in ('phi', 'it', 'after', 'afterlocal') and len(sub) > 1 and sub[1] == L:
+                                inv = False
+                                break
+                        if not inv:
+                            break
+                    numeric = is_int(inits[rank]) or all(kind_of(r_) == 'num' for r_ in rest)
+                    if inv and numeric and rest:
+                        k = rest[0]
+                        for r_ in rest[1:]:
+                            k = mk_bin('+', k, r_, self.opts)
                 if k is not None and kind_of(inits[rank]) != 'seq':
                     ivs[v] = (rank, k)
             if ivs:
@@ -1340,7 +1353,7 @@ class PE:
                 for rank, v in enumerate(carried2):
                     env2[v] = ('phi', L, rank)
                 for v, (rank, k) in ivs.items():
-                    env2[v] = mk_bin('+', inits[rank], mk_bin('*', C(k), cnt, self.opts), self.opts)
+                    env2[v] = mk_bin('+', inits[rank], mk_bin('*', k, cnt, self.opts), self.opts)
                 for v in assigned:
                     if v not in env and v not in tn:
                         env2.pop(v, None)
@@ -1354,7 +1367,7 @@ class PE:
                     n_it = ('call', ('b', 'len'), (it,), ())
                 old_inits = inits
                 for v, (rank, k) in ivs.items():
-                    env2[v] = mk_bin('+', old_inits[rank], mk_bin('*', C(k), n_it, self.opts), self.opts)
+                    env2[v] = mk_bin('+', old_inits[rank], mk_bin('*', k, n_it, self.opts), self.opts)
                 iv_after = {v: env2[v] for v in ivs}
                 carried = carried2
                 inits = tuple(env[v] for v in carried)
@@ -1380,6 +1393,9 @@ class PE:
             effects.append(('while', L, cond, inits, nexts, tuple(body_eff), tuple(else_eff)))
 
     def exec_funcdef(self, s, env, effects):
+        if self.module_mode:
+            env[s.name] = ('g', s.name)
+            return False
         sub = PE(self.resolve_global, self.global_values, self.unroll, self.opts, self.inline, self.call_hook)
         sub.closures = self.closures + [env]
         sub.lam_depth = self.lam_depth + 20
